@@ -184,11 +184,15 @@ pub assume_specification[ SymbolicAsyncGraph::as_network ](g: &SymbolicAsyncGrap
 // with_custom_context: the given unit BDD is intersected with the regulation constraints; the call fails
 // iff nothing remains ("No update functions satisfy given constraints"); transitions are those of the network.
 // Contract given for the case used by the repo: the unit BDD is already inside a valid unit set.
+pub uninterp spec fn ctx_uniform_extras(c: &SymbolicContext, k: nat) -> bool;   // every network variable has exactly k extra state variables in c
+pub uninterp spec fn fresh_ready(g: &SymbolicAsyncGraph, k: nat) -> bool;        // g is the graph of the analysis, built with k spare variable sets (meaning: prelude/tool_model.rs)
 pub uninterp spec fn valid_colors() -> ISet<Pt>;   // points whose colour satisfies the regulation constraints
 pub assume_specification[ SymbolicAsyncGraph::with_custom_context ](n: &BooleanNetwork, c: SymbolicContext, u: Bdd) -> (r: Result<SymbolicAsyncGraph, String>)
     ensures
         match r {
-            Ok(g) => unit_of(&g) == bv(&u).intersect(valid_colors()) && same_trans(&g, &net_graph(n)) && unit_of(&g) != ISet::<Pt>::empty() && has_network(&g),
+            Ok(g) => unit_of(&g) == bv(&u).intersect(valid_colors()) && same_trans(&g, &net_graph(n)) && unit_of(&g) != ISet::<Pt>::empty() && has_network(&g)
+                // a graph built from the constant-true unit over a context with exactly k spare variables per network variable
+                && (forall|k: nat| #[trigger] ctx_uniform_extras(&c, k) && (forall|p: Pt| bv(&u).contains(p) <==> shaped(p)) ==> fresh_ready(&g, k)),
             Err(_) => bv(&u).intersect(valid_colors()) == ISet::<Pt>::empty(),
         };
 pub open spec fn has_succ(g: &SymbolicAsyncGraph, p: Pt) -> bool { exists|v: int| 0 <= v < dim_n() && #[trigger] can_flip(g, v, p.s, p.c) }
